@@ -216,6 +216,41 @@ theorem find_gap (fx : Bool) (pos : Nat) (e : Expr) (st : St) (m : M)
 
 /-! ### The suggestion stack -/
 
+/-- Record patterns (`Suggest::on_pattern`, lib.rs:167-195): a RENAMING field `{ name = p }`
+    contributes exactly the binders of `p` — never `name`; the shorthand `{ name }` contributes
+    `name`; a record pattern contributes what its fields contribute, in order. -/
+theorem record_pattern_binders (sp nsp : Span) (b : Nat) (v f : Pat) (fs : List Pat) :
+    (Pat.fieldVal nsp v).binders = v.binders ∧
+    (Pat.fieldShort nsp b).binders = [b] ∧
+    (Pat.record sp (f :: fs)).binders = f.binders ++ (Pat.record sp fs).binders ∧
+    (Pat.record sp []).binders = [] :=
+  ⟨rfl, rfl, rfl, rfl⟩
+
+/-- Hence a symbol is registered by a record pattern iff one of its fields registers it, and by
+    a renaming field iff the inner pattern registers it. -/
+theorem record_pattern_binder_iff (sp : Span) (fs : List Pat) (x : Nat) :
+    x ∈ (Pat.record sp fs).binders ↔ ∃ f ∈ fs, x ∈ f.binders := by
+  induction fs with
+  | nil => simp [Pat.binders, Pat.binders.bindersList]
+  | cons f fs ih =>
+    have : (Pat.record sp (f :: fs)).binders = f.binders ++ (Pat.record sp fs).binders := rfl
+    rw [this, List.mem_append, ih]
+    simp
+
+/-- `let { width = w, height } = r in w` (symbols: 0 = `w`, 1 = `height`; `width` is not a
+    symbol of the tree at all). -/
+def recordLet : Expr :=
+  .letb ⟨1, 35⟩ false
+    [.mk (.record ⟨5, 26⟩ [.fieldVal ⟨7, 12⟩ (.leaf ⟨15, 16⟩ (some 0)), .fieldShort ⟨18, 24⟩ 1]) []
+      (.leaf ⟨29, 30⟩)]
+    (.leaf ⟨34, 35⟩)
+
+/-- In the body exactly `w` and `height` are on the stack. -/
+example : ∃ st, findAt 34 recordLet = .ok st ∧ st.scope.map Prod.fst = [1, 0] := ⟨_, rfl, rfl⟩
+-- on the field name of the renaming field the search reports that name; inside it, the pattern
+example : ∃ st, findAt 9 recordLet = .ok st ∧ st.found = .found ⟨.ident, ⟨7, 12⟩, .plain⟩ := ⟨_, rfl, rfl⟩
+example : ∃ st, findAt 15 recordLet = .ok st ∧ st.found = .found ⟨.pattern, ⟨15, 16⟩, .plain⟩ := ⟨_, rfl, rfl⟩
+
 /-- `let a = 1 in let b = 2 in b`. -/
 def nestedLet : Expr :=
   .letb ⟨1, 28⟩ false [.mk (.leaf ⟨5, 6⟩ (some 0)) [] (.leaf ⟨9, 10⟩)]
@@ -294,6 +329,7 @@ example : app.ok = true := by decide
 example : app.wn = true := by decide
 example : unitLet.ok = true ∧ unitLet.wn = true := by decide
 example : nestedLet.ok = true ∧ nestedLet.wn = true := by decide
+example : recordLet.ok = true ∧ recordLet.wn = true := by decide
 example : annotatedArr.wn = true := by decide
 example : app.spec 6 = some ⟨.expr, ⟨6, 7⟩, .plain⟩ := by decide
 -- a gap: between `(g 1)` and `x`
